@@ -2,6 +2,7 @@ import SakuraVerif.Model.Time
 import SakuraVerif.Model.Smf
 import SakuraVerif.Model.Messages
 import SakuraVerif.Lemmas.Normalize
+import SakuraVerif.Lemmas.CoreShift
 /-! # C14 — TIME, MeasureShift, rests and PlayFrom put events at the documented ticks
 
 * `C14_time_formula`: `TIME(m:b:t)` = ((m−1+shift)·numerator + (b−1))·beat + t with
@@ -411,5 +412,34 @@ example : playFrom 10 [⟨.cc, 8, 1, 7, 30, 0, []⟩, ⟨.cc, 3, 2, 7, 99, 0, []
   unfold playFrom pfAcc
   rw [hb]
   decide
+
+/-! ## a leading rest (on `Spec.Core.sem`, the semantics the compiler is compared with on every run) -/
+
+/-- **nothing in the core language reads the absolute position**: every program without `TR` / `PLAY` (notes, chords, tuplets, `Sub`,
+    loops with `:`, settings, `TrackSync` … at any depth) run in a state moved `L` ticks later (`shSt`: pointers, written notes, an
+    open chord) ends in the state it ends in otherwise, moved `L` ticks later -/
+theorem C14_shift_commutes (L : Int) (cs : List Core.Cmd) (hk : Core.okL cs = true) (s : Core.St) (h : s.WF) :
+    Core.semL cs (Core.shSt L s) = Core.shSt L (Core.semL cs s) :=
+  Core.semL_sh L cs s hk h
+
+/-- **inserting a rest of length L before a program shifts every later event by exactly L and changes nothing else**: on a fresh
+    single-track song, `r<len>` followed by the program ends in the state of the program alone moved by the rest's length — every
+    note the same note `L` ticks later, every pointer `L` ticks later, all settings the same -/
+theorem C14_leading_rest_shifts (len : Option Core.LenExpr) (cs : List Core.Cmd) (hk : Core.okL cs = true) (s : Core.St) (t : Core.Trk)
+    (hs : s.tr = [t]) (ht : t.ev = []) (hc : s.cur = 0) (hh : s.harm = none) :
+    Core.semL (.rest len 1 :: cs) s = Core.shSt (Core.lenOpt s.tb t.l len) (Core.semL cs s) :=
+  Core.leading_rest_shifts len cs hk s t hs ht hc hh
+
+/-- what the move does to a track: the pointer and every note `L` later, nothing else touched -/
+theorem C14_shift_spec (L : Int) (t : Core.Trk) :
+    (Core.shTrk L t).tp = t.tp + L ∧ (Core.shTrk L t).ev = t.ev.map (fun e => { e with time := e.time + L }) ∧
+      (Core.shTrk L t).ch = t.ch ∧ (Core.shTrk L t).l = t.l ∧ (Core.shTrk L t).o = t.o ∧ (Core.shTrk L t).v = t.v ∧
+      (Core.shTrk L t).q = t.q ∧ (Core.shTrk L t).t = t.t ∧ (Core.shTrk L t).key = t.key :=
+  ⟨rfl, rfl, rfl, rfl, rfl, rfl, rfl, rfl, rfl⟩
+
+-- non-vacuity: the initial song is such a fresh single-track song; a program with a chord, a tuplet and a loop is admitted
+example : Core.St.init.tr = [Core.newTrk 96 0] ∧ (Core.newTrk 96 0).ev = [] ∧ Core.St.init.cur = 0 ∧ Core.St.init.harm = none := ⟨rfl, rfl, rfl, rfl⟩
+example : Core.okL [.chord [.note 0 0 false none none none none none] none none none,
+    .div [.rest none 1, .loop 2 [.noteN 60 none none none none] true [.setO 4]] none, .trackSync] = true := by decide
 
 end Sakura.Props.C14
